@@ -49,7 +49,37 @@ def satS (bits : Nat) (x : Int) : Int :=
 def sat_i32 (x : Int) : Int := satS 32 x
 def sat_i64 (x : Int) : Int := satS 64 x
 
+/-- `MonthWeekDay` (the model keeps its three fields inside `RuleDay.mwd`) -/
+structure MonthWeekDay where
+  month : Int
+  week : Int
+  weekDay : Int
+  deriving DecidableEq, Repr, Inhabited
+
+/-- src/timezone/rule.rs `JulianDayCheckInfos` -/
+structure JulianDayCheckInfos where
+  startNormalYearOffset : Int
+  endNormalYearOffset : Int
+  startLeapYearOffset : Int
+  endLeapYearOffset : Int
+  deriving DecidableEq, Repr, Inhabited
+
+/-- src/timezone/rule.rs `MonthWeekDayCheckInfos` -/
+structure MonthWeekDayCheckInfos where
+  startNormalYearOffsetRange : Int × Int
+  endNormalYearOffsetRange : Int × Int
+  startLeapYearOffsetRange : Int × Int
+  endLeapYearOffsetRange : Int × Int
+  deriving DecidableEq, Repr, Inhabited
+
 def idx {α} [Inhabited α] (l : List α) (i : Int) : α := l.getD i.toNat default
+
+/-- a statement or initialiser that may `return` early: the returned value, or the value / state it yields -/
+inductive Flow (ρ : Type) (α : Type) where
+  | ret (r : ρ)
+  | val (a : α)
+
+instance {ρ α : Type} [Inhabited α] : Inhabited (Flow ρ α) := ⟨.val default⟩
 
 /-- one iteration of a loop body: go on, stop (condition false or `break`), or `return r` -/
 inductive Step (σ : Type) (ρ : Type) where
